@@ -84,14 +84,17 @@ def cases(ctx):
             t["nrows"] = 3
             for c in t["cols"]:
                 c["data"] = [1, 2, 3] if c["integer"] else [1.5, 2.5, -0.0]
-        yield {"kind": "error", "table": t, "fault": rng.choice(["missing-header", "non-numeric", "non-numeric", "empty-cell"]), "rseed": rng.randrange(10 ** 9)}
+        yield {"kind": "error", "table": t, "fault": rng.choice(["missing-header", "non-numeric", "non-numeric", "empty-cell", "all-empty-row", "all-empty-row"]), "rseed": rng.randrange(10 ** 9)}
     for i in range(ctx.n(500, 30000)):
         t = gen_table(rng)
         t["missing"] = None
         t["missing_class"] = "None"
         for c in t["cols"]:
             pass
-        yield {"kind": "write", "table": t, "order": rng.sample(range(len(t["cols"])), rng.randint(1, len(t["cols"]))), "rseed": rng.randrange(10 ** 9)}
+        order = rng.sample(range(len(t["cols"])), rng.randint(1, len(t["cols"])))
+        if rng.random() < 0.25:
+            order = order + [order[0]] + ([order[-1]] if rng.random() < 0.5 else [])      # a result listed more than once: one column per listed name
+        yield {"kind": "write", "table": t, "order": order, "rseed": rng.randrange(10 ** 9)}
 
 
 def write_csv(table, path, blank_positions=None, mutate_other=None, target=None):
@@ -255,6 +258,19 @@ def run_error(ctx, case):
         ctx.dontcare("error-line case with a multi-line header (line arithmetic of the harness poisoner)")
         return
     cells = lines[ln - 1].split(",")
+    if case["fault"] == "all-empty-row":
+        # a line that is not blank but whose cells are all empty or blank: the cell of the requested column is not a number
+        lines[ln - 1] = ",".join(rng.choice(["", " ", "  "]) for _ in cells) if len(cells) > 1 else rng.choice([" ", "   ", "\t"])
+        with open(path, "w", encoding="utf-8", newline="") as f:
+            f.write(t["eol"].join(lines))
+        out = _read(prog, path, "R", col["name"], None, None)
+        if out.ok or out.err != "InvalidDataFile":
+            ctx.fail("error:row-of-empty-cells:%s" % ("accepted" if out.ok else out.inner() or out.err), {"line": repr(lines[ln - 1]), "rows_read": getattr(out.value, "shape", None) if out.ok else None})
+            return
+        m = re.search(r"line (\d+)", str(out.exc))
+        if not m or int(m.group(1)) != ln:
+            ctx.fail("error:row-of-empty-cells:wrong-file-line", {"reported": m and int(m.group(1)), "actual_file_line": ln})
+        return
     cells[target] = "" if case["fault"] == "empty-cell" and len(cells) > 1 else rng.choice(["abc", "1,5" if False else "x1", "NULL", "--", "1e", "12abc"])
     lines[ln - 1] = ",".join(cells)
     with open(path, "w", encoding="utf-8", newline="") as f:
@@ -280,9 +296,10 @@ def run_write(ctx, case):
     names = []
     for k, ci in enumerate(order):
         c = t["cols"][ci]
-        nm = "W%d" % k
-        a = numpy.ma.array(numpy.array(c["data"], dtype="int64" if c["integer"] else "float64"))
-        arr.standin(prog, nm, a)
+        nm = "W%d" % ci          # the same column listed twice is the same result listed twice
+        if nm not in prog.commands:
+            a = numpy.ma.array(numpy.array(c["data"], dtype="int64" if c["integer"] else "float64"))
+            arr.standin(prog, nm, a)
         names.append(nm)
     kinds = "".join("i" if t["cols"][ci]["integer"] else "f" for ci in order)
     ctx.feature(("write", kinds if len(kinds) <= 3 else kinds[:3] + "+", min(t["nrows"], 3)))
@@ -320,6 +337,8 @@ def run_write(ctx, case):
     ctx.count("read_after_write_checks")
     for k, ci in enumerate(order):
         c = t["cols"][ci]
+        if names.index(names[k]) != k:
+            continue
         o = _read(prog, path, "Back%d" % k, names[k], "Integer" if c["integer"] else "Float", None)
         if not o.ok:
             ctx.fail("roundtrip:read-of-written-file-raises-%s" % (o.inner() or o.err), {"error": str(o.exc)[:200]})
